@@ -212,6 +212,8 @@ fn rejects_fixed<R: Rep, const N: usize>() {
     } else {
         d.tog(u, v);
     }
+
+    crate::rejected_call_returned();
 }
 
 /// AdjacencyMap: add_arc admits new endpoints (ids < NX).
@@ -272,6 +274,7 @@ fn rejects_map<const N: usize>() {
     let u = nd::below(N + 2);
 
     d.add_arc(u, u);
+    crate::rejected_call_returned();
 }
 
 /// AdjacencyListWeighted<usize>: re-adding replaces the weight.
@@ -386,6 +389,7 @@ fn rejects_weighted<const N: usize>() {
     kani::assume(u == v || u >= N || v >= N);
 
     d.add_arc_weighted(u, v, nd::usize());
+    crate::rejected_call_returned();
 }
 
 // AdjacencyMatrix, real std, arbitrary 3-vertex start + 3 ops incl. toggle.
@@ -404,10 +408,9 @@ pub fn c01_history_matrix_n8_k2() {
     history_fixed::<AdjacencyMatrix, 8, 2>();
 }
 
-// @verif prop=C01 tier=quick fl=f0 role=rejects/matrix t=600 mem=10
+// @verif prop=C01 tier=quick fl=f0 role=rejects/matrix t=600 mem=10 expect=panic
 #[cfg_attr(kani, kani::proof)]
 #[cfg_attr(kani, kani::unwind(5))]
-#[cfg_attr(kani, kani::should_panic)]
 pub fn c01_rejects_matrix_n3() {
     rejects_fixed::<AdjacencyMatrix, 3>();
 }
@@ -419,10 +422,9 @@ pub fn c01_history_edge_list_n3_k3() {
     history_fixed::<EdgeList, 3, 3>();
 }
 
-// @verif prop=C01 tier=quick fl=f1 role=rejects/edge-list t=600 mem=10
+// @verif prop=C01 tier=quick fl=f1 role=rejects/edge-list t=600 mem=10 expect=panic
 #[cfg_attr(kani, kani::proof)]
 #[cfg_attr(kani, kani::unwind(5))]
-#[cfg_attr(kani, kani::should_panic)]
 pub fn c01_rejects_edge_list_n3() {
     rejects_fixed::<EdgeList, 3>();
 }
@@ -434,10 +436,9 @@ pub fn c01_history_adjacency_list_n3_k3() {
     history_fixed::<AdjacencyList, 3, 3>();
 }
 
-// @verif prop=C01 tier=quick fl=f1 role=rejects/adjacency-list t=600 mem=10
+// @verif prop=C01 tier=quick fl=f1 role=rejects/adjacency-list t=600 mem=10 expect=panic
 #[cfg_attr(kani, kani::proof)]
 #[cfg_attr(kani, kani::unwind(5))]
-#[cfg_attr(kani, kani::should_panic)]
 pub fn c01_rejects_adjacency_list_n3() {
     rejects_fixed::<AdjacencyList, 3>();
 }
@@ -450,10 +451,9 @@ pub fn c01_history_adjacency_map_n2_x4_k3() {
     history_map::<2, 4, 3>();
 }
 
-// @verif prop=C01 tier=quick fl=f1 role=rejects/adjacency-map t=600 mem=10
+// @verif prop=C01 tier=quick fl=f1 role=rejects/adjacency-map t=600 mem=10 expect=panic
 #[cfg_attr(kani, kani::proof)]
 #[cfg_attr(kani, kani::unwind(10))]
-#[cfg_attr(kani, kani::should_panic)]
 pub fn c01_rejects_adjacency_map_n3() {
     rejects_map::<3>();
 }
@@ -465,10 +465,9 @@ pub fn c01_history_weighted_n3_k2() {
     history_weighted::<3, 2>();
 }
 
-// @verif prop=C01 tier=quick fl=f1 role=rejects/weighted t=600 mem=10
+// @verif prop=C01 tier=quick fl=f1 role=rejects/weighted t=600 mem=10 expect=panic
 #[cfg_attr(kani, kani::proof)]
 #[cfg_attr(kani, kani::unwind(10))]
-#[cfg_attr(kani, kani::should_panic)]
 pub fn c01_rejects_weighted_n3() {
     rejects_weighted::<3>();
 }
